@@ -370,6 +370,89 @@ theorem alone_never_wrong (outcome : Nat → Option Nat) (t n ev : Nat) (g : Str
   | 2 => simp [alone, sinkSys, sinkStep, fresh]
   | n + 3 => rw [alone_fresh]; simp
 
+/-! ## C11 — where the invocation scope stores `event` -/
+
+/-- Does a scope set-up sequence (constructor, stores, parent link, evaluation — in source
+    order) keep every store in the fresh scope? `SetValue` resolves the name through the parent
+    chain, so it is local only while the scope has no parent; `SetLocalValue` is always local.
+    `linked` = the scope has (or may have) a parent. -/
+def storesLocal : Bool → List (String × String) → Bool
+  | _, [] => true
+  | linked, (op, _) :: rest =>
+    if op = "NewScope" then storesLocal false rest
+    else if op = "NewScopeWithParent" || op = "NewChild" || op = "SetParentOfScope" then storesLocal true rest
+    else if op = "SetValue" then !linked && storesLocal linked rest
+    else storesLocal linked rest
+
+/-- the set-up keeps its stores local and does store each of the `required` names -/
+def setupKeepsLocal (setup : List (String × String)) (required : List String) : Bool :=
+  storesLocal true setup &&
+  required.all fun n => setup.any fun c => (c.1 = "SetValue" || c.1 = "SetLocalValue") && c.2 = n
+
+structure ELoc where
+  event : Nat                    -- the event this invocation was started for
+  pc    : Nat := 0
+  own   : Option Nat := none     -- the variable `event` of the invocation scope
+  read1 : Option Nat := none     -- `event` as read by the statements, twice
+  read2 : Option Nat := none
+  deriving DecidableEq, Repr, Inhabited
+
+/-- the variable named `event` of the DECLARING scope (`none` = the program defines none) -/
+def eventCell : String := "event"
+
+/-- One step of an invocation. pc 0: store `event` — with `parentFirst` (the scope already has
+    its parent) the store goes to the declaring scope's variable if there is one, otherwise a
+    local variable is created. pc 1, 2: the statements read `event` (own scope first, then the
+    parent chain). -/
+def scopeStep (parentFirst : Bool) (g : String → Option Nat) (l : ELoc) : (String → Option Nat) × ELoc :=
+  if l.pc = 0 then
+    if parentFirst && (g eventCell).isSome then
+      (fun x => if x = eventCell then some l.event else g x, { l with pc := 1 })
+    else (g, { l with pc := 1, own := some l.event })
+  else if l.pc = 1 then (g, { l with pc := 2, read1 := l.own <|> g eventCell })
+  else if l.pc = 2 then (g, { l with pc := 3, read2 := l.own <|> g eventCell })
+  else (g, l)
+
+def scopeSys (parentFirst : Bool) : Sys String (Option Nat) ELoc := ⟨fun _ => scopeStep parentFirst⟩
+
+theorem scopeSys_local_readonly : WritesWithin (scopeSys false) (fun _ => False) := by
+  intro t g l x _
+  simp only [scopeSys, scopeStep]
+  split
+  · simp
+  · split
+    · rfl
+    · split <;> rfl
+
+theorem scope_alone_done (pf : Bool) (t n : Nat) (g : String → Option Nat) (l : ELoc) (h : l.pc ≥ 3) :
+    alone (scopeSys pf) t n g l = (g, l) := by
+  induction n with
+  | zero => rfl
+  | succ n ih =>
+    have h0 : ¬ l.pc = 0 := by omega
+    have h1 : ¬ l.pc = 1 := by omega
+    have h2 : ¬ l.pc = 2 := by omega
+    simp only [alone, scopeSys, scopeStep, h0, h1, h2, if_false]
+    exact ih
+
+theorem scope_alone_fresh (t n ev : Nat) (g : String → Option Nat) :
+    (alone (scopeSys false) t (n + 3) g { event := ev }).2
+      = { event := ev, pc := 3, own := some ev, read1 := some ev, read2 := some ev } := by
+  have : alone (scopeSys false) t (n + 3) g { event := ev }
+      = alone (scopeSys false) t n g
+          { event := ev, pc := 3, own := some ev, read1 := some ev, read2 := some ev } := by
+    simp [alone, scopeSys, scopeStep]
+  rw [this, scope_alone_done _ _ _ _ _ (by simp)]
+
+theorem scope_alone_never_wrong (t n ev : Nat) (g : String → Option Nat) :
+    let l := (alone (scopeSys false) t n g { event := ev }).2
+    (l.read1 = none ∨ l.read1 = some ev) ∧ (l.read2 = none ∨ l.read2 = some ev) := by
+  match n with
+  | 0 => simp [alone]
+  | 1 => simp [alone, scopeSys, scopeStep]
+  | 2 => simp [alone, scopeSys, scopeStep]
+  | n + 3 => rw [scope_alone_fresh]; simp
+
 /-! ## An explicitly shared, lock-protected global (example system) -/
 
 /-- Invocations that each add their own event id to a lock-protected global counter `total`
